@@ -552,6 +552,23 @@ func (e *SpecEnv) locations(m SExpr) []location {
 				e.fail("modifies all(): not a pointer")
 			}
 			return vc.objectLocs(x, derefType(x.Typ))
+		case "pointee":
+			// pointee(i): the object an interface value points to (its dynamic type must be known here)
+			x := e.Eval(n.Args[0])
+			if x.K == KIface {
+				if tn, ok := litValue(x.Tag); ok {
+					if t, ok := vc.tagTypes[int(tn)]; ok {
+						if pt, ok := t.Underlying().(*types.Pointer); ok {
+							return vc.objectLocs(Val{K: KPtr, T: x.T, Typ: types.NewPointer(pt.Elem())}, pt.Elem())
+						}
+					}
+				}
+				e.fail("modifies pointee(): dynamic type of the interface value is not statically known")
+			}
+			if x.K == KPtr {
+				return vc.objectLocs(x, derefType(x.Typ))
+			}
+			e.fail("modifies pointee(): not an interface or pointer")
 		case "deref":
 			x := e.Eval(n.Args[0])
 			return vc.objectLocs(x, derefType(x.Typ))
@@ -845,6 +862,7 @@ func (f *Frame) appendOp(args []Val, o *blockOut, st0 types.Type) Val {
 	vc.assumeRaw(Implies(Gt(n, s.Cap), need)) // growth is forced when capacity is exceeded; it is allowed otherwise only if nil
 	vc.assumeRaw(Implies(need, Gt(n, s.Cap)))
 	narr := vc.newRef("append.arr")
+	vc.markAlloc(o.st, narr, nil)
 	ncap := vc.freshInt("append.cap")
 	vc.assumeRaw(And(Ge(ncap, n), Le(ncap, BigLit("4611686018427387904"))))
 	res := Val{K: KSlice, T: Ite(need, narr, s.T), Off: Ite(need, IntLit(0), s.Off), Len: n, Cap: Ite(need, ncap, s.Cap), Typ: st0}
@@ -873,6 +891,14 @@ func (f *Frame) appendOp(args []Val, o *blockOut, st0 types.Type) Val {
 		if lv, ok := litValue(e.Len); ok && lv <= 4 {
 			for k := int64(0); k < lv; k++ {
 				vc.assumeRaw(Eq(Select(Select(A2, res.T), Add(res.Off, Add(s.Len, IntLit(k)))), Select(Select(A, e.T), Add(e.Off, IntLit(k)))))
+			}
+			if l.sort == SInt && l.suffix == "" {
+				// ghost content set of the slice value (contents at the time of the last append)
+				cur := vc.sliceSet(s)
+				for k := int64(0); k < lv; k++ {
+					cur = Store(cur, Select(Select(A, e.T), Add(e.Off, IntLit(k))), True)
+				}
+				vc.assumeRaw(Eq(vc.sliceSet(res), cur))
 			}
 		} else {
 			vc.assumeRaw(Term{fmt.Sprintf("(forall ((%s Int)) (=> (and (<= 0 %s) (< %s %s)) (= (select (select %s %s) (+ %s (+ %s %s))) (select (select %s %s) (+ %s %s)))))",
